@@ -253,6 +253,9 @@ def url_regions(u, nested, ctx):
 class Meaning:
     def __init__(self, vfs, drop_empty=False, minified=False, embedded=False):
         self.vfs = vfs
+        self.vfs_n = {}                          # normalised URL -> sheet (first key wins; the keys are distinct URLs)
+        for _k, _v in vfs.items():
+            self.vfs_n.setdefault(norm_abs(_k), _v)
         self.embedded = embedded                 # follow an @import into the sheet the rule holds (loaded DOM state,
                                                  # after edits) instead of looking its URL up in the file system
         self.item_depth = []                     # import depth of each item
@@ -298,12 +301,17 @@ class Meaning:
                 except ValueError:
                     full = 'unjoinable:' + r[1]
                 m = media + ((r[2],) if r[2] != 'all' else ())
-                # (the URL it means, not the href as written: an @import kept from an imported sheet may be re-based)
-                self.import_seq.append((full if full.startswith('unjoinable:') else norm_abs(full), r[2]))
+                # the URL it means, up to what a user agent does before using it (`norm_abs`): an @import kept from an
+                # imported sheet is re-based (e8a4f78), and `Replacer` + `urljoin` leave the dot segments of an absolute
+                # reference in place (`http://o/r/../s.css` for what was fetched as `http://o/s.css`)
+                if not full.startswith('unjoinable:'):
+                    full = norm_abs(full)
+                nchain = [norm_abs(c) for c in chain]
+                self.import_seq.append((full, r[2]))
                 if self.embedded:
                     if ctx['depth'] > 0 and not full.startswith('unjoinable:'):
                         try:
-                            if up.urljoin(chain[0], r[1]) != full:
+                            if norm_abs(up.urljoin(chain[0], r[1])) != full:
                                 self.misresolving.add(r[1])
                         except ValueError:
                             self.misresolving.add(r[1])
@@ -316,25 +324,25 @@ class Meaning:
                     continue
                 if ctx['depth'] == 0:
                     self.top_seq.append(self.import_seq[-1])
-                    self.top_imports.append((r[1], full in self.vfs and full not in chain))
+                    self.top_imports.append((r[1], full in self.vfs_n and full not in nchain))
                     self.top_media.append(r[2])
                 else:
                     try:
-                        if up.urljoin(chain[0], r[1]) != full:
+                        if norm_abs(up.urljoin(chain[0], r[1])) != full:
                             self.misresolving.add(r[1])
                     except ValueError:
                         self.misresolving.add(r[1])
-                if full in chain or full.startswith('unjoinable:'):
+                if full in nchain or full.startswith('unjoinable:'):
                     # recursive, or a malformed URL: counts as unavailable without any fetch
                     self.unavail[(full, m)] += 1
                     continue
                 self.fetches[full] += 1
-                if full not in self.vfs:
+                if full not in self.vfs_n:
                     self.unavail[(full, m)] += 1
                     continue
                 c2 = {'depth': ctx['depth'] + 1,
                       'origin_change': ctx['origin_change'] or origin(full) != origin(href)}
-                self.walk(self.vfs[full], full, chain + [full], m, c2)
+                self.walk(self.vfs_n[full], full, chain + [full], m, c2)
             elif k == 'S':
                 if r[2] or not self.drop_empty:
                     self.items.append(('S', media, r[1], self.style(r[2], href, ctx)))
@@ -406,8 +414,16 @@ def compare_meaning(orig, flat):
     if out and stray:
         # an @import of an imported sheet was moved into the flattened sheet with its href unchanged, and from there
         # it resolves to a different URL; whatever it pulls in or fails to pull in is a consequence of that
-        return [('kept-import', {'kept_import_href_unchanged': stray[:3], 'first_difference': out[0][:2]},
-                 'C19-kept-import-not-rebased')]
+        # what is left of C19-kept-import-not-rebased after e8a4f78: `Replacer` keeps every href that has a scheme, but
+        # urljoin lets `file:///x` inherit the host of a `file://host/...` base, so such an href still means another URL
+        def scheme_without_host(h):
+            try:
+                sp = up.urlsplit(h)
+            except ValueError:
+                return False
+            return bool(sp.scheme) and not sp.netloc
+        kf = 'C19-kept-import-not-rebased' if all(scheme_without_host(h) for h in stray) else None
+        return [('kept-import', {'kept_import_href_unchanged': stray[:3], 'first_difference': out[0][:2]}, kf)]
     return out
 
 
